@@ -175,6 +175,7 @@ theorem step_bal (w : World) (e : Ev) (k : Nat) :
       have hp := place_cs w (some i) (taskTurn t clock w.cs)
       rw [hp.1, hp.2]
       exact hb
+  | cancel i => simp [step, removed, inserted]
 
 theorem removed_append (k : Nat) (a b : List Obs) : removed k (a ++ b) = removed k a + removed k b := by
   simp [removed, List.countP_append]
